@@ -129,6 +129,8 @@ pub type Thin = ThinArc<LP, u32>;
 
 #[derive(Clone, Copy, Debug, PartialEq, Eq, Hash, PartialOrd, Ord)]
 pub enum Kind {
+    /// `Arc<[MaybeUninit<LP>]>` (one initialised slot): the deprecated as_mut_slice gate
+    MS,
     /// Arc / ThinArc of a payload without drop glue
     N,
     TN,
@@ -142,6 +144,7 @@ pub enum Kind {
     F,
 }
 pub enum LH {
+    MS(Arc<[std::mem::MaybeUninit<LP>]>),
     N(Arc<LN>),
     TN(ThinArc<LN, u32>),
     B(*const Arc<LP>),
@@ -158,6 +161,7 @@ unsafe impl Send for LH {}
 impl LH {
     pub fn kind(&self) -> Kind {
         match self {
+            LH::MS(_) => Kind::MS,
             LH::N(_) => Kind::N,
             LH::TN(_) => Kind::TN,
             LH::B(_) => Kind::B,
@@ -171,6 +175,7 @@ impl LH {
     }
     fn read(&self) -> (bool, u32) {
         match self {
+            LH::MS(x) => unsafe { x[0].assume_init_ref() }.read(),
             LH::N(x) => x.read(),
             LH::TN(x) => x.header.header.read(),
             LH::B(p) => unsafe { (**p).read() },
@@ -208,6 +213,7 @@ impl LH {
     }
     fn clone_same(&self) -> LH {
         match self {
+            LH::MS(x) => LH::MS(x.clone()),
             LH::N(x) => LH::N(x.clone()),
             LH::TN(x) => LH::TN(x.clone()),
             LH::B(p) => LH::A(unsafe { (**p).clone() }),
@@ -222,6 +228,7 @@ impl LH {
     /// clone through a borrow path, yielding a plain (fat) Arc
     fn clone_arc(&self) -> LH {
         match self {
+            LH::MS(x) => LH::MS(x.clone()),
             LH::N(x) => LH::N(x.borrow_arc().clone_arc()),
             LH::TN(x) => LH::TN(Arc::into_thin(x.with_arc(|a| a.clone()))),
             LH::B(p) => LH::A(unsafe { (**p).borrow_arc().clone_arc() }),
@@ -236,6 +243,7 @@ impl LH {
     /// count-neutral conversion to the partner representation
     fn convert(self) -> LH {
         match self {
+            LH::MS(x) => LH::MS(x),
             LH::N(x) => LH::N(Arc::from_raw_offset(Arc::into_raw_offset(x))),
             LH::TN(x) => LH::TN(Arc::into_thin(Arc::from_thin(x))),
             LH::B(p) => LH::B(p),
@@ -262,6 +270,7 @@ pub enum TOp {
     TryUniqueW,
     IsUniqueGetMutW,
     WithArcMutW,
+    DepWriteW,
     MakeMutW,
     MakeUniqueW,
     TryUnwrap,
@@ -277,6 +286,7 @@ pub fn op_valid(op: TOp, hs: &[Kind]) -> bool {
         Convert => !matches!(k0, Kind::U1 | Kind::U2 | Kind::B),
         GetMutW | GetUniqueW | TryUniqueW | IsUniqueGetMutW | TryUniqueInner => matches!(k0, Kind::A | Kind::F),
         WithArcMutW => k0 == Kind::T,
+        DepWriteW => k0 == Kind::MS,
         MakeMutW => matches!(k0, Kind::A | Kind::O),
         MakeUniqueW | TryUnwrap | UnwrapOrClone => k0 == Kind::A,
     }
@@ -448,6 +458,20 @@ pub fn run_program(me: u32, p: &Program, first: LH, is_writer: bool, rules: Rule
                 hs.insert(0, n);
                 fact(format!("t{}:try_unique={}", me, g));
             }
+            DepWriteW => {
+                #[allow(deprecated)]
+                let g = cap(|| match &mut hs[0] {
+                    LH::MS(x) => match std::panic::catch_unwind(std::panic::AssertUnwindSafe(|| x.as_mut_slice().as_mut_ptr())) {
+                        Ok(p) => {
+                            unsafe { (*p).assume_init_mut() }.flip();
+                            true
+                        }
+                        Err(_) => false,
+                    },
+                    _ => unreachable!(),
+                });
+                fact(format!("t{}:dep_write={}", me, g));
+            }
             WithArcMutW => {
                 let g = cap(|| match &mut hs[0] {
                     LH::T(x) => x.with_arc_mut(|a| Arc::get_mut(a).map(|hs| hs.header_mut().flip()).is_some()),
@@ -533,6 +557,15 @@ pub fn setup(kinds: &[Kind]) -> (LH, Vec<LH>, u32, usize) {
         let _ = Arc::count(&base);
         let hs = kinds.iter().map(|_| cap(|| LH::N(base.clone()))).collect();
         return (LH::N(base), hs, id, block);
+    }
+    if kinds.iter().any(|k| matches!(k, Kind::MS)) {
+        let mut u = cap(|| triomphe::UniqueArc::<[std::mem::MaybeUninit<LP>]>::new_uninit_slice(1));
+        u[0].write(LP::new(0));
+        let base = u.shareable();
+        let (id, block) = (unsafe { base[0].assume_init_ref() }.id, base.heap_ptr() as usize);
+        let _ = Arc::count(&base);
+        let hs = kinds.iter().map(|_| cap(|| LH::MS(base.clone()))).collect();
+        return (LH::MS(base), hs, id, block);
     }
     if kinds.iter().any(|k| matches!(k, Kind::TN)) {
         let base: ThinArc<LN, u32> = cap(|| ThinArc::from_header_and_iter(LN::new(0), [7u32, 9].into_iter()));
